@@ -213,7 +213,6 @@ func rulePoolStartsEmpty(c *Ctx, rule string) {
 	_ = fmt.Sprint
 }
 
-
 // ruleAccessorOutcomes: the accessors evaluated by the abstract interpreter (absint.go) in every scenario.
 func ruleAccessorOutcomes(c *Ctx, rule string) {
 	parseID := map[string]string{
@@ -274,7 +273,6 @@ func ruleAccessorOutcomes(c *Ctx, rule string) {
 		c.R.Add(rule, c.fk(f), "returns", c.P.Pos(f.Pos()), len(bad) == 0, ifelse(len(bad) == 0, desc+" (4 scenarios evaluated)", "accessor breaks its contract: "+strings.Join(bad, " ; ")))
 	}
 }
-
 
 // matchesZero: got equals want once every generic zero value (ZERO) is read as the zero constant expected there.
 func matchesZero(got, want string) bool {
